@@ -31,6 +31,7 @@ import (
 	"io"
 	"net"
 	"net/http"
+	"os"
 	"runtime"
 	"sort"
 	"strings"
@@ -466,6 +467,31 @@ func vfC08Run(t *testing.T, cs vfC08Case, out *vfC08Out, isKnown func(string) bo
 			}
 		}
 
+		var cancels []context.CancelFunc
+		defer func() {
+			// every return path must let the handler goroutines exit before the bubble ends
+			for _, c := range cancels {
+				c()
+			}
+			for _, k := range states {
+				go k.conn.TransportClose()
+			}
+			vfSettle()
+			if dbgPath := os.Getenv("VF_DEBUG"); dbgPath != "" {
+				dbgF, _ := os.OpenFile(dbgPath, os.O_APPEND|os.O_CREATE|os.O_WRONLY, 0o644)
+				defer dbgF.Close()
+				fmt.Fprintf(dbgF, "---- case\n")
+				for _, k := range states {
+					k.conn.Client.mu.RLock()
+					fmt.Fprintf(dbgF, "DBG cleanup %s status=%d auth=%v idle=%v\n", k.conn.Name, k.conn.Client.status, k.conn.Client.authenticated, k.idle())
+					k.conn.Client.mu.RUnlock()
+				}
+				for _, e := range w.Events() {
+					fmt.Fprintf(dbgF, "DBG ev %d %s %s %s %s %s\n", e.Seq, e.At, vfC08Short(e.Client), e.Kind, e.Ch, e.Detail)
+				}
+			}
+		}()
+
 		connectSeen := func(k *vfC08ConnState) bool {
 			id := k.conn.Client.ID()
 			for _, e := range w.Events() {
@@ -732,17 +758,6 @@ func vfC08Run(t *testing.T, cs vfC08Case, out *vfC08Out, isKnown func(string) bo
 		}
 
 		// ---- O7 probes: attempts after shutdown completed ------------------------------------------------------------
-		var cancels []context.CancelFunc
-		defer func() {
-			// every return path must let the handler goroutines exit before the bubble ends
-			for _, c := range cancels {
-				c()
-			}
-			for _, k := range states {
-				go k.conn.TransportClose()
-			}
-			vfSettle()
-		}()
 		var probeConns []*vfConn
 		probeBodies := map[string]*vfC08RW{}
 		for pi, p := range cs.Probes {
